@@ -129,7 +129,7 @@ def make_out(MAX, epnum=3):
         c.cover("clear_while_data1", z3.And(clear, exp == 1))
         c.cover("foreign_clear_while_data1", z3.And(foreign, exp == 1, bits(ch, 5, 2) == epnum))
         c.cover("nak", z3.And(resp, O["o_nak"] == 1))
-        c.cover_depth = 3 * MAX + 16
+        c.cover_depth = 30
     return contract
 
 
